@@ -32,6 +32,9 @@ assume func makeSlice(n int) (s []byte)
 func endsWithIncompleteRune(p []byte) (r bool)
   modifies nothing
   ensures [C01] !r ==> clean(p, len(p))
+  -- ... and it says so exactly for a tail that is an incomplete or invalid sequence, not for a valid U+FFFD: a wider test
+  -- stops adjacent envelopes from being merged depending on the content of the first one (C02)
+  ensures [C02,C09] r <==> badTail(p, len(p))
 
 -- The representation invariant of Buffer (DESIGN 3.1). A = b.buf, V = validUntil, O = markerOpen.
 invariant (b *Buffer)
